@@ -429,7 +429,7 @@ func (g *goBuilder) build(path string, t types.Type, depth int) string {
 		if !ok || tag == 0 {
 			return "nil"
 		}
-		if int(tag) <= len(g.c.tagTypes) {
+		if tag >= 1 && int(tag) <= len(g.c.tagTypes) {
 			ct := g.c.tagTypes[tag-1]
 			if _, isIface := ct.Underlying().(*types.Interface); !isIface {
 				return g.build(fmt.Sprintf("%s.(%s)", path, types.TypeString(ct, func(p *types.Package) string { return "" })), ct, depth+1)
